@@ -52,6 +52,8 @@ ATOMS = [
     (('path', ('path', ('path', P, 'friends'), 'friends'), 'tags'), 'str', {'Person'}),
     (CH, 'obj:Person', {'Chief'}),
     (('isa', ('path', O, 'likes'), 'Chief'), 'obj:Person', {'Post'}),
+    (('param', 's', 'std::str', True), 'str', set()),          # the same parameter name as atom 17, optional
+    (('param', 'n', 'std::int64', True), 'int', set()),
 ]
 NATOM = len(ATOMS)
 
